@@ -149,3 +149,111 @@ func runRedirectSwitch(i int) {
 	}
 	run.Count("redirect-switch:observations-checked", int64(len(obs)))
 }
+
+// runRefusedThenOther: the same client first tries stream A, whose first SETUP the application
+// refuses with a status that is not retried, and then describes, sets up and plays stream B
+// (another path and query). The refusal of A must leave nothing behind that keeps B's requests
+// from reaching the server with B's path and query.
+func runRefusedThenOther(i int) {
+	evals.Add(1)
+	r := run.Rand("refused-then-other", i)
+	as := [][2]string{{"/cam/main", "res=hi"}, {"/a", ""}, {"/x/trackID=3", "t=1"}}
+	bs := [][2]string{{"/cam/sub", "res=lo&tok=a%2Fb"}, {"/b/c", ""}, {"/y", "trackID=2"}}
+	a, b := as[r.Intn(len(as))], bs[r.Intn(len(bs))]
+	status := []base.StatusCode{base.StatusServiceUnavailable, base.StatusNotFound, base.StatusForbidden}[r.Intn(3)]
+	c := redirectCase{Kind: "refused-setup-then-other-url", OldPath: a[0], OldQuery: a[1], NewPath: b[0], NewQuery: b[1], Status: int(status)}
+	var mu sync.Mutex
+	var seen []rdObs
+	note := func(kind, path, query string) {
+		mu.Lock()
+		seen = append(seen, rdObs{kind, path, query})
+		mu.Unlock()
+	}
+	isA := func(p string) bool { return p == a[0] || p == a[0][1:] }
+	ts, err := rig.StartServer(rig.ServerOpts{UDP: true, HandlerSet: "full", NoLog: true,
+		PreStart: func(t *rig.TestServer) {
+			t.Core.Describe = func(ctx *gortsplib.ServerHandlerOnDescribeCtx) (*base.Response, *gortsplib.ServerStream, error) {
+				note("describe", ctx.Path, ctx.Query)
+				return &base.Response{StatusCode: base.StatusOK}, t.Stream, nil
+			}
+			t.Core.Setup = func(ctx *gortsplib.ServerHandlerOnSetupCtx) (*base.Response, *gortsplib.ServerStream, error) {
+				note("setup", ctx.Path, ctx.Query)
+				if isA(ctx.Path) {
+					return &base.Response{StatusCode: status}, nil, nil
+				}
+				return &base.Response{StatusCode: base.StatusOK}, t.Stream, nil
+			}
+			t.Core.Play = func(ctx *gortsplib.ServerHandlerOnPlayCtx) (*base.Response, error) {
+				note("play", ctx.Path, ctx.Query)
+				return &base.Response{StatusCode: base.StatusOK}, nil
+			}
+		}})
+	if err != nil {
+		run.Fatal("refused-then-other: server: %v", err)
+	}
+	defer ts.Close()
+	mkURL := func(pq [2]string) *base.URL {
+		s := ts.URL(pq[0])
+		if pq[1] != "" {
+			s += "?" + pq[1]
+		}
+		u, _ := base.ParseURL(s)
+		return u
+	}
+	ua, ub := mkURL(a), mkURL(b)
+	proto := gortsplib.ProtocolTCP
+	cl := &gortsplib.Client{Scheme: ua.Scheme, Host: ua.Host, Protocol: &proto, ReadTimeout: 10 * time.Second, WriteTimeout: 10 * time.Second}
+	if err := cl.Start(); err != nil {
+		run.Fatal("refused-then-other: client: %v", err)
+	}
+	defer cl.Close()
+	wit := func() map[string]any {
+		mu.Lock()
+		defer mu.Unlock()
+		return map[string]any{"case": c, "observations": append([]rdObs(nil), seen...)}
+	}
+	da, _, err := cl.Describe(ua)
+	if err != nil {
+		run.Inconclusive("refused-then-other: DESCRIBE of the first stream failed: " + err.Error())
+		return
+	}
+	if _, err := cl.Setup(da.BaseURL, da.Medias[0], 0, 0); err == nil {
+		run.Inconclusive("refused-then-other: the refused SETUP returned no error")
+		return
+	}
+	run.Count("cases:refused-setup-then-other-url", 1)
+	run.Distinct(fmt.Sprintf("refused-then-other|%s|%s|%d", a[0], b[0], status))
+	db, _, err := cl.Describe(ub)
+	if err != nil {
+		run.Violation("refused-setup/describe-of-other-url-failed", fmt.Sprintf("after a SETUP of %s refused with %d, DESCRIBE of %s fails: %v", ua, status, ub, err), wit())
+		return
+	}
+	for k, m := range db.Medias {
+		if _, err := cl.Setup(db.BaseURL, m, 0, 0); err != nil {
+			run.Violation("refused-setup/setup-of-other-url-failed", fmt.Sprintf("after a SETUP of %s refused with %d, SETUP of media %d of %s fails: %v", ua, status, k, ub, err), wit())
+			return
+		}
+	}
+	if _, err := cl.Play(nil); err != nil {
+		run.Violation("refused-setup/play-of-other-url-failed", fmt.Sprintf("after a SETUP of %s refused with %d, PLAY of %s fails: %v", ua, status, ub, err), wit())
+		return
+	}
+	mu.Lock()
+	obs := append([]rdObs(nil), seen...)
+	mu.Unlock()
+	// everything after the refused SETUP belongs to stream B
+	past := false
+	for k, ob := range obs {
+		if !past {
+			if ob.Kind == "setup" && isA(ob.Path) {
+				past = true
+			}
+			continue
+		}
+		if (ob.Path != b[0] && ob.Path != b[0][1:]) || ob.Query != b[1] {
+			run.Violation("refused-setup/"+ob.Kind+"/url-of-the-refused-stream", fmt.Sprintf("observation %d (%s) after the refused SETUP carries path %q query %q, expected %q %q", k+1, ob.Kind, ob.Path, ob.Query, b[0], b[1]), wit())
+			return
+		}
+	}
+	run.Count("refused-then-other:observations-checked", int64(len(obs)))
+}
